@@ -58,7 +58,7 @@ prop("C06", ["TaRs.Props.C06"],
      explanation="L0: dec (enc s ++ r) = (s, r) for the generated bincode codec of every indicator on every well-formed state; serde_derive/bincode are modelled and tied by byte comparison of every logged state.")
 prop("C07", ["TaRs.Props.C07", "TaRs.Lemmas.Exact.FastStochastic", "TaRs.Lemmas.Exact.EfficiencyRatio", "TaRs.Lemmas.Exact.MoneyFlowIndex"],
      explanation="L2: ratio-of-non-negatives and convex-combination lemmas, RSI value range, alpha in (0,1]; exact range theorems of FastStochastic/ER/MFI in Lemmas/Exact as completed; 1e-9 slack sampled.")
-prop("C08", ["TaRs.Props.C08", "TaRs.Lemmas.Exact.FastStochastic", "TaRs.Lemmas.Exact.RateOfChange", "TaRs.Lemmas.Exact.EfficiencyRatio", "TaRs.Lemmas.Exact.CommodityChannelIndex", "TaRs.Lemmas.Exact.MoneyFlowIndex"],
+prop("C08", ["TaRs.Props.C08", "TaRs.Props.C08Exact", "TaRs.Lemmas.Exact.FastStochastic", "TaRs.Lemmas.Exact.RateOfChange", "TaRs.Lemmas.Exact.EfficiencyRatio", "TaRs.Lemmas.Exact.CommodityChannelIndex", "TaRs.Lemmas.Exact.MoneyFlowIndex"],
      explanation="L1 guard theorems for any Scalar (output is the neutral literal or a quotient whose denominator tested non-zero on that path) for FastStochastic, CCI, ER, MFI, RSI; exact neutral values at X K from Lemmas/Exact; residue/underflow are float-only and searched on the implementation (two known findings).")
 prop("C09", ["TaRs.Props.C09"],
      explanation="L2 inequalities at X K (SD, MAD >= 0, bands ordered, hulls, Min <= Max), L1 clamp theorem (m2 never negative for any Scalar with not (0 < 0)), L0 histogram identity; tau slack sampled.")
